@@ -87,7 +87,7 @@ def check_sequence(run, drv, seq, paths, fins, argv_extra, mode, cwd):
                 got = None
         if got != expect:
             found |= run.violation("verdict-lines", dict(data, expected=expect, got=got))
-        if code != want_exit:
+        if (code == 0) != (want_exit == 0):
             found |= run.violation("exit-status", dict(data, expected_exit=want_exit))
     else:
         f = fins[fatal_idx]
@@ -195,6 +195,21 @@ def run(run, tier, seed, replay=None):
             if k < 400 and k % 97 == 5:
                 run.sample({"classes": sq, "argv": extra, "mode": mode})
             shutil.rmtree(d, ignore_errors=True)
+        # a broken proof / tie / correspondence and no failing input yet: look where exit arithmetic can still go wrong
+        # (statuses are taken modulo 256 by the OS: many erroneous files in one run)
+        if replay is None and not found and (not b.ok or run.deferred):
+            for nbad in (255, 256, 257, 512):
+                d = os.path.join(tmp, "many%d" % nbad)
+                os.makedirs(d)
+                fins = []
+                for i in range(nbad):
+                    name = "e%d.c" % i
+                    with open(os.path.join(d, name), "w") as f:
+                        f.write(SRC["erroneous"])
+                    fins.append({"path": name, "base": name, "res": cache[SRC["erroneous"]], "src": ""})
+                found |= check_sequence(run, None, ["erroneous"] * nbad, [f["path"] for f in fins], fins, ["--no-colors"], "subprocess", d)
+                run.count("deep search: many erroneous files", 1, 1)
+                shutil.rmtree(d, ignore_errors=True)
     finally:
         shutil.rmtree(tmp, ignore_errors=True)
         if drv:
